@@ -87,13 +87,13 @@ theorem sm_semLin (A : Mat 𝕜) (s : Sm 𝕜) (h : s.OK A) : SemLin A (applySm 
     subst hA
     exact jac_semLin ω M it hc hd
   | bsrgs ω M it sw =>
-    obtain ⟨_, hA, hc, hd⟩ := h
+    obtain ⟨hA, hbs, hc, hd⟩ := h
     subst hA
-    exact bsrgs_semLin ω M it sw hc hd
+    exact bsrgs_semLin ω M it sw hbs hc hd
   | bsrjac ω M it =>
-    obtain ⟨_, hA, hc, hd⟩ := h
+    obtain ⟨hA, hbs, hc, hd⟩ := h
     subst hA
-    exact bsrjac_semLin ω M it hc hd
+    exact bsrjac_semLin ω M it hbs hc hd
   | cfbjac cf ω M Dinv C Fp it fIt cIt =>
     obtain ⟨hA, hc, hbs, hD, hL, hC, hF⟩ := h
     subst hA
